@@ -527,7 +527,7 @@ HAND = [
 
 
 def run(rep):
-    rep.rule = ("byte strings: hand corpus, every operator-alphabet string up to length 3 (quick) / 5 (thorough) bare and "
+    rep.rule = ("byte strings: hand corpus, every operator-alphabet string up to length 4 (quick) / 5 (thorough) bare and "
                 "embedded, ui-tests + std.libsonnet whole and mutated, grammar-generated token sequences (all literal "
                 "forms incl. malformed), scalar-boundary and invalid-UTF-8 bodies in every string/comment context, "
                 "random bytes; each lexed with both flags; non-trivial = >=2 non-EOF tokens or an error; "
@@ -547,11 +547,11 @@ def run(rep):
     for h in HAND:
         add(h, "hand")
     # operator clusters (maximal munch)
-    maxlen = 5 if thorough else 3
+    maxlen = 5 if thorough else 4
     for L in range(1, maxlen + 1):
         for tup in itertools.product(OPCH, repeat=L):
             add(bytes(tup), "opcluster")
-    nctx = 40000 if thorough else 1500
+    nctx = 40000 if thorough else 4000
     for _ in range(nctx):
         L = rng.randrange(1, 7)
         op = bytes(rng.choice(b"|/*" if rng.random() < 0.35 else OPCH) for _ in range(L))
@@ -591,24 +591,28 @@ def run(rep):
     pick = datas if thorough else [datas[-1]] + rng.sample(datas[:-1], 120)
     for d in pick:
         add(d, "corpus")
-    for _ in range(20000 if thorough else 900):
+    for _ in range(80000 if thorough else 3000):
         add(mutate(rng, rng.choice(datas)), "corpus-mut")
-    for _ in range(60000 if thorough else 3000):
+    for _ in range(200000 if thorough else 8000):
         add(gen_grammar(rng), "grammar")
-    for _ in range(20000 if thorough else 700):
+    for _ in range(60000 if thorough else 2500):
         add(gen_number(rng) + rng.choice([b"", b" ", b"x", b".", b"e", b"_", b"+1"]), "number")
-    for _ in range(20000 if thorough else 700):
+    for _ in range(80000 if thorough else 2500):
         add(gen_textblock(rng) + rng.choice([b"", b"", b" x", b"\n"]), "textblock")
     alph = bytes(range(256))
     lex_alph = b"'\"\\|/*-+.e_0189 \n\r\t@#ux:=<" + bytes([0x80, 0xBF, 0xC2, 0xE0, 0xA0, 0xED, 0xF0, 0x90, 0xF4, 0xFF])
-    for _ in range(30000 if thorough else 1500):
+    for _ in range(100000 if thorough else 5000):
         a = alph if rng.random() < 0.3 else lex_alph
         add(bytes(rng.choice(a) for _ in range(rng.randrange(0, 24))), "random")
     if thorough:
-        small = b"'\\|/*-.e_01 \n\r@u\xc2\xa0"
+        small = b"'\"\\|/*-+.e_019 \t\n\r@#ux:=<a{" + bytes([0x80, 0xA0, 0xBF, 0xC2, 0xE0, 0xED, 0xF0, 0x90, 0xF4, 0xFF, 0x7F, 0x00])
         for L in range(1, 4):
             for tup in itertools.product(small, repeat=L):
                 add(bytes(tup), "exhaustive-small")
+        tiny = b"'\\|-\n \r\tu0\xc2"
+        for tup in itertools.product(tiny, repeat=4):
+            add(bytes(tup), "exhaustive-small4")
+            add(b"|||\n " + bytes(tup), "exhaustive-tb")
 
     # dedupe, keep order
     seen = set()
